@@ -269,6 +269,8 @@ def _lower_sub_effect(ex, a):
     v = ex.mk(_REF, fresh_name("lowered"), register=True)
     ex.assume(den(v) == val(a.expr))
     ex.assume(A.i32(den(v)))
+    if isinstance(v, SObj):
+        ex.assume(z3.Length(v.signal_type) > 0)  # every SignalRef carries a (non-empty) signal type
     return v
 
 
@@ -329,7 +331,7 @@ def _callee_for(op):
 def _chain_callee(op):
     return Contract(qualname=EL + "_try_fold_logical_chain", params={"self": _OPQ, "expr": _OPQ}, returns=ty.TOpt(ty.TObj("SignalRef", only=("SignalRef",))),
                     callee_ensures=[("folded chain denotes the logical value", lambda a, res: True if res is None else _sem(op, val(a.expr.left), val(a.expr.right))(res))],
-                    verify=False, note="ASSUMED: multi-condition decider folding (exercised end-to-end by the C01 scope's comparison chains)")
+                    verify=False, note="proved below (_try_fold_logical_chain) for chains of up to three comparisons of simple operands; for longer chains ASSUMED")
 
 
 merge_callee = Contract(qualname=EL + "_attempt_wire_merge", params={"self": _OPQ, "expr": _OPQ, "left_ref": _OPQ, "right_ref": _OPQ, "result_type": _OPQ},
@@ -359,3 +361,160 @@ for _op in _BIN_OPS:
         properties=("C01",), min_obligations=2, no_replay=True, note=f"op {_op}; scalar operands"))
 
 CONTRACTS += [lower_sub, extract_callee, get_expr_type, actual_type, merge_callee, sig_type_name]
+
+# =================================================================================================
+# K3: condition folding.  _try_fold_logical_chain either declines (None) or returns one multi-condition decider
+# whose rows are exactly the chain's comparisons, in order, combined with the chain's connective — so it denotes
+# the && / || of the comparisons (S3).  Chain shapes: c1 OP c2, (c1 OP c2) OP c3, c1 OP (c2 OP c3) and the two mixed
+# shapes (inner connective differs), leaves = comparisons of simple operands; comparators symbolic.
+# =================================================================================================
+def cmp_sym(op, a, b):
+    return Or(And(op == "<", a < b), And(op == "<=", a <= b), And(op == ">", a > b), And(op == ">=", a >= b),
+              And(op == "==", a == b), And(op == "!=", a != b))
+
+
+def _decider_multi_effect(ex, a):
+    truths = [cmp_sym(c[0], den(c[1]), den(c[2])) for c in a.conditions]
+    if a.combine_type == "and":
+        t = And(*truths)
+    elif a.combine_type == "or":
+        t = Or(*truths)
+    else:
+        raise NotImplementedError("connective")
+    if not isinstance(a.output_value, int) or a.copy_count_from_input is not False:
+        raise NotImplementedError("copy mode")
+    return _new_ref(a.output_type, ops.ite(t, a.output_value, 0))
+
+
+builder_multi = Contract(qualname=IRB + "decider_multi", params={"self": _OPQ, "conditions": _OPQ, "combine_type": _OPQ, "output_value": _OPQ, "output_type": ty.Str,
+                                                                   "source_ast": _OPQ, "copy_count_from_input": _OPQ},
+                         defaults={"source_ast": None, "copy_count_from_input": False}, effect=_decider_multi_effect, verify=False,
+                         note="IRBuilder.decider_multi appends one IRDecider with one row per tuple, all rows after the first combined with combine_type; "
+                              "denotation: all (and) / any (or) of the rows ? output_value : 0  (S2 row semantics; a pure and- or or-chain has no precedence issue)")
+
+_IDENT = ty.TObj("Expr", only=("IdentifierExpr",))
+
+
+def _cmp_leaf(tag):
+    return ty.TObj("BinaryOp", only=("BinaryOp",), ftypes=(("op", ty.Str), ("left", _IDENT), ("right", _IDENT)))
+
+
+def _leaf_truth(leaf):
+    return cmp_sym(leaf.op, val(leaf.left), val(leaf.right))
+
+
+def _logic_node(op, l, r):
+    return ty.TObj("BinaryOp", only=("BinaryOp",), ftypes=(("op", ty.TConcrete(op)), ("left", l), ("right", r)))
+
+
+def _chain_truth(node, op):
+    """S3 truth of the chain tree"""
+    if isinstance(node.op, str) and node.op in ("&&", "||"):
+        l, r = _chain_truth(node.left, op), _chain_truth(node.right, op)
+        return And(l, r) if node.op == "&&" else Or(l, r)
+    return _leaf_truth(node)
+
+
+def _leaves(node):
+    if isinstance(node.op, str) and node.op in ("&&", "||"):
+        return _leaves(node.left) + _leaves(node.right)
+    return [node]
+
+
+def _leaf_ops_are_comparisons(a):
+    return And(*[Or(*[l.op == c for c in A.CMP_OPS]) for l in _leaves(a.expr)])
+
+
+def _chain_post(mixed):
+    def post(a, res):
+        if mixed:
+            return res is None
+        if res is None:
+            return False  # a pure chain of simple comparisons is always folded (the caller relies only on soundness, checked next)
+        return den(res) == b2i(_chain_truth(a.expr, a.expr.op))
+    return post
+
+
+_CHAIN_USES = dict(_SIMPLE_USES)
+_CHAIN_USES.update({"ExpressionLowerer.lower_expr": lower_sub, "IRBuilder.decider_multi": builder_multi, "opaque.get_expr_type": get_expr_type,
+                    "SemanticAnalyzer.get_expr_type": get_expr_type, "fn:get_signal_type_name": sig_type_name,
+                    "ExpressionLowerer._collect_comparison_chain": "inline", "ExpressionLowerer._is_simple_operand": "inline",
+                    "ExpressionLowerer._create_folded_decider": "inline"})
+for _op in ("&&", "||"):
+    _other = "||" if _op == "&&" else "&&"
+    _shapes = {
+        "c1 OP c2": (_logic_node(_op, _cmp_leaf(1), _cmp_leaf(2)), False),
+        "(c1 OP c2) OP c3": (_logic_node(_op, _logic_node(_op, _cmp_leaf(1), _cmp_leaf(2)), _cmp_leaf(3)), False),
+        "c1 OP (c2 OP c3)": (_logic_node(_op, _cmp_leaf(1), _logic_node(_op, _cmp_leaf(2), _cmp_leaf(3))), False),
+        "(c1 OTHER c2) OP c3": (_logic_node(_op, _logic_node(_other, _cmp_leaf(1), _cmp_leaf(2)), _cmp_leaf(3)), True),
+        "c1 OP (c2 OTHER c3)": (_logic_node(_op, _cmp_leaf(1), _logic_node(_other, _cmp_leaf(2), _cmp_leaf(3))), True),
+    }
+    for _sn, (_t, _mixed) in _shapes.items():
+        CONTRACTS.append(Contract(
+            qualname=EL + "_try_fold_logical_chain",
+            params={"self": ty.TObj("ExpressionLowerer", only=("ExpressionLowerer",)), "expr": _t},
+            requires=[("leaf operators are comparisons", _leaf_ops_are_comparisons)],
+            ensures=[("a folded chain denotes the && / || of its comparisons; a mixed chain is declined", _chain_post(_mixed))],
+            uses=_CHAIN_USES,
+            dynamic_types={"self": {"ir_builder": ty.TObj("IRBuilder", only=("IRBuilder",)), "parent": ty.TOpaque("parent"),
+                                    "semantic": ty.TObj("SemanticAnalyzer", only=("SemanticAnalyzer",))}},
+            properties=("C01",), min_obligations=1, no_replay=True, note=f"OP = {_op}; shape {_sn}"))
+CONTRACTS.append(builder_multi)
+
+# =================================================================================================
+# K3: the conditional value `(l CMP r) : v` (simple comparison, scalar operands).
+# lower_output_spec_expr yields a reference that denotes  cmp ? val(v) : 0 ; in copy mode the decider is
+# built on the signal type of the copied value (IR well-formedness of copy-count deciders: a precondition of
+# the builder, checked at this call site).
+# =================================================================================================
+def _decider2_effect(ex, a):
+    if not isinstance(a.test_op, str):
+        raise NotImplementedError("symbolic comparison tag")
+    truth = A.cmp(a.test_op, den(a.left), den(a.right))
+    if isinstance(a.output_value, SObj):
+        if a.copy_count_from_input is not True:
+            raise NotImplementedError("signal output without copy mode")
+        return _new_ref(a.output_type, ops.ite(truth, den(a.output_value), 0))
+    if a.copy_count_from_input is not False:
+        raise NotImplementedError("constant output in copy mode")
+    return _new_ref(a.output_type, ops.ite(truth, a.output_value, 0))
+
+
+builder_decider2 = Contract(
+    qualname=IRB + "decider", params=builder_decider.params, defaults=builder_decider.defaults, effect=_decider2_effect, verify=False,
+    requires=[("a copy-count decider is built on the signal type of the value it copies",
+               lambda a: (a.output_type == a.output_value.signal_type) if isinstance(a.output_value, SObj) else True)],
+    note="IRBuilder.decider: constant mode denotes cmp ? k : 0; copy mode denotes cmp ? value : 0 PROVIDED the output type is the copied value's signal type")
+
+_NUM = ty.TObj("Expr", only=("NumberLiteral",), ftypes=(("value", ty.Int),))
+
+
+def _spec_post(op):
+    def post(a, res):
+        c = a.expr.condition
+        l, r, v = val(c.left), val(c.right), val(a.expr.output_value)
+        return den(res) == ops.ite(A.cmp(op, l, r), v, 0)
+    return post
+
+
+_SPEC_USES = dict(_SIMPLE_USES)
+_SPEC_USES.update({"ExpressionLowerer.lower_expr": lower_sub, "ConstantFolder.extract_constant_int": extract_callee,
+                   "ConstantFolder.fold_binary_operation": _c11._fold_callee, "opaque.get_expr_type": get_expr_type,
+                   "SemanticAnalyzer.get_expr_type": get_expr_type, "fn:get_signal_type_name": sig_type_name,
+                   "IRBuilder.decider": builder_decider2, "ExpressionLowerer._lower_output_spec_value": "inline",
+                   "ExpressionLowerer._is_bundle_filter_pattern": "inline"})
+for _op in A.CMP_OPS:
+    for _ov, _ovn in ((ty.TObj("Expr", only=("IdentifierExpr",)), "named value"), (ty.TObj("Expr", only=("BinaryOp",)), "computed value")):
+        CONTRACTS.append(Contract(
+            qualname=EL + "lower_output_spec_expr",
+            params={"self": ty.TObj("ExpressionLowerer", only=("ExpressionLowerer",)),
+                    "expr": ty.TObj("OutputSpecExpr", only=("OutputSpecExpr",), ftypes=(
+                        ("condition", ty.TObj("BinaryOp", only=("BinaryOp",), ftypes=(("op", ty.TConcrete(_op)), ("left", _IDENT), ("right", _IDENT)))),
+                        ("output_value", _ov)))},
+            requires=[("operand values are int32", lambda a: And(A.i32(val(a.expr.condition.left)), A.i32(val(a.expr.condition.right)), A.i32(val(a.expr.output_value))))],
+            ensures=[(f"denotes (l {_op} r) ? v : 0", _spec_post(_op))],
+            uses=_SPEC_USES,
+            dynamic_types={"self": {"ir_builder": ty.TObj("IRBuilder", only=("IRBuilder",)), "parent": ty.TOpaque("parent"),
+                                    "semantic": ty.TObj("SemanticAnalyzer", only=("SemanticAnalyzer",)), "diagnostics": ty.TOpaque("diag")}},
+            properties=("C01",), min_obligations=2, no_replay=True, note=f"op {_op}; {_ovn}"))
+CONTRACTS.append(builder_decider2)
